@@ -124,6 +124,11 @@ def conv_task(t):
     rng = np.random.RandomState(t["seed"])
     x = rng.randint(-4, 5, size=(N, C) + tuple(xs)).astype(np.float64)
     w = rng.randint(-3, 4, size=(F, C) + tuple(Ws)).astype(np.float64)
+    if t.get("xdt") or t.get("wdt"):
+        # mixed operand dtypes: integer images, fractional filter taps (exactly representable quarters): the result is the documented sum in the common dtype
+        xdt, wdt = np.dtype(t.get("xdt", "float64")), np.dtype(t.get("wdt", "float64"))
+        x = (np.abs(x) if xdt.kind == "u" else x).astype(xdt)
+        w = (w / 4.0).astype(wdt) if wdt.kind == "f" else w.astype(wdt)
     res = {"accepted": False, "exc": None, "out": None, "oracle": []}
     x0, w0 = x.copy(), w.copy()
     try:
@@ -137,13 +142,25 @@ def conv_task(t):
         ref = naive_conv(x0, w0, Ss, ps, Ds)
         if out.shape != ref.shape:
             res["oracle"].append("shape %s differs from the naive formula's %s" % (out.shape, ref.shape))
-        elif not np.array_equal(out.data, ref):
-            res["oracle"].append("values differ from the naive nested sum (max abs diff %g)" % float(np.abs(out.data - ref).max()))
+        elif out.dtype != ref.dtype and (t.get("xdt") or t.get("wdt")):
+            res["oracle"].append("result dtype %s, the operands' common dtype is %s" % (out.dtype, ref.dtype))
+        elif not (np.array_equal(out.data, ref) if ref.dtype != np.float32 else np.allclose(out.data, ref, rtol=1e-5, atol=1e-5)):
+            res["oracle"].append("values differ from the naive nested sum (max abs diff %g)" % float(np.abs(out.data.astype(np.float64) - ref.astype(np.float64)).max()))
     except Exception as e:
         res["oracle"].append("naive evaluation impossible for an accepted configuration: %r" % (e,))
     if not (np.array_equal(x, x0) and np.array_equal(w, w0)):
         res["oracle"].append("inputs modified")
     return res
+
+
+def swv_nonint_task(t):
+    """a window / step / dilation SEQUENCE with a non-integer entry is refused (it is not silently truncated)"""
+    arr = np.arange(float(np.prod(t["shape"]))).reshape(t["shape"])
+    try:
+        out = sliding_window_view(arr, window_shape=tuple(t["window"]), step=t["step"], dilation=t["dilation"])
+    except Exception as e:
+        return {"raised": exn_class(e), "oracle": []}
+    return {"raised": None, "oracle": ["accepted a non-integer entry: window=%s step=%s dilation=%s -> view of shape %s" % (t["window"], t["step"], t["dilation"], out.shape)]}
 
 
 def naive_pool(x, pool, stride):
@@ -194,6 +211,8 @@ def main():
                 out.append(conv_task(t))
             elif t["kind"] == "pool":
                 out.append(pool_task(t))
+            elif t["kind"] == "swv_nonint":
+                out.append(swv_nonint_task(t))
             else:
                 raise ValueError(t["kind"])
         except Exception as e:
